@@ -316,6 +316,21 @@ func (fi *FuncInfo) objClass0(v ssa.Value) Class {
 			}
 			return c
 		}
+		// library append helpers return their first slice argument extended (like the builtin):
+		// binary.LittleEndian.AppendUint16(buf, v), strconv.AppendInt(buf, ..), fmt.Appendf(buf, ..)
+		if name := CalleeName(&v.Call); strings.HasPrefix(name, "(encoding/binary.") && strings.Contains(name, ").AppendUint") && len(v.Call.Args) >= 2 {
+			c := fi.ObjClass(v.Call.Args[1])
+			if c.IsNil() {
+				return Class{Root: "L:" + fi.ID(v)}
+			}
+			return c
+		} else if (strings.HasPrefix(name, "strconv.Append") || strings.HasPrefix(name, "fmt.Append")) && len(v.Call.Args) >= 1 {
+			c := fi.ObjClass(v.Call.Args[0])
+			if c.IsNil() {
+				return Class{Root: "L:" + fi.ID(v)}
+			}
+			return c
+		}
 		if c, ok := typeRoot(v.Type()); ok {
 			return c
 		}
